@@ -100,6 +100,14 @@ M = [
   "        except _RemoteResourceUriNotFound as e:\n            if cache_miss.allow_for_missing_files:",
   "        except OSError:\n            return True\n        except _RemoteResourceUriNotFound as e:\n            if cache_miss.allow_for_missing_files:",
   "an OSError (EIO/ENOSPC/EMFILE) during the download"),
+ ("m47_allow_missing_setter_without_effect", "C19", CO,
+  "        self._update_config(\"_allow_for_missing_files\", allow_for_missing_files)",
+  "        self._update_config(\"_allow_missing_files\", allow_for_missing_files)",
+  "the caller switches config.allow_for_missing_files on the running cache, then a not-found fetch"),
+ ("m48_size_setter_memory_only", "C18", CO,
+  "        self._update_config(\"size_gb\", size_bytes / GIGABYTE)",
+  "        self._update_config(\"size_gb\", size_bytes / GIGABYTE, write=False)",
+  "the limit is enlarged (by a request or by the caller), no eviction back under the old limit, reopen"),
 ]
 
 
@@ -137,8 +145,10 @@ BENIGN = [
 def write_benign():
     out = os.path.join(os.path.dirname(OUT), "benign")
     os.makedirs(out, exist_ok=True)
+    generated = {name for name, _rel, _edits in BENIGN}
     for f in os.listdir(out):
-        if f.endswith(".patch"):
+        # (b07.. were written by sub-agents, not generated from a specification: they stay)
+        if f.endswith(".patch") and f[:-6] in generated:
             os.remove(os.path.join(out, f))
     bad = 0
     for name, rel, edits in BENIGN:
